@@ -427,6 +427,11 @@ class UpdateCollection(Message):
                 return
 
             yield self._message(UpdateCollection.prefix(withdraws) + UpdateCollection.prefix(attr) + announced)
+            if packed_size > msg_size:
+                # the NLRI carried over into the next message does not fit beside the
+                # attributes even on its own: stop rather than build an oversized UPDATE
+                log.critical(lazymsg('update.pack.error reason=attributes_too_large'), 'parser')
+                return
             announced = bytes(packed)
             announced_size = packed_size
             withdraws = b''
